@@ -458,6 +458,7 @@ class ModelMixin:
     # ------------------------------------------------------------------ confectioner (assumed contracts, OptTheory)
     def b_confectioner_templating_get_dotted_key(self, a, k):
         key, o = self.as_key(a[0]), self.as_opt(a[1])
+        self._last_lookup_opt = o
         self.event("dep", "get_dotted_key", key, o)
         if self.fork(T.has(o, key)):
             return Sym("val", T.get(o, key))
@@ -623,7 +624,9 @@ class ModelMixin:
                 if z3.is_true(okp):
                     vt = z3.simplify(e.vals[kt])
                     self.event("fingerprint", sm.ks, k, vt)
-                    return FingerprintV(sm.ks, k, vt)
+                    fp = FingerprintV(sm.ks, k, vt)
+                    fp.opt = getattr(self, "_last_lookup_opt", None)
+                    return fp
             raise Unsupported("fingerprint shape: not a sorted list of {key: value} singletons")
         if isinstance(recv, LoggerV) and meth == "log":
             self.event("emit", recv.name, args[0], args[1])
@@ -680,8 +683,10 @@ class ModelMixin:
         return hm.unwrap(self, v) if getattr(hm, "unwrap", None) else self.as_val(v)
 
     def heapmap_has(self, hm, k):
-        present, _ = self.heap[hm.name]
-        return present[self.heapmap_key(hm, k)]
+        present = self.heap[hm.name][0]
+        kt = self.heapmap_key(hm, k)
+        self.event("heap-probe", hm.name, kt)
+        return present[kt]
 
     def heapmap_get(self, hm, k):
         st = self.heap[hm.name]
